@@ -267,3 +267,57 @@ def inline_locals(fi, e, depth=3):
         if d is not None:
             return inline_locals(fi, d, depth - 1)
     return e
+
+
+# ------------------------------------------------------------------ reaching definitions of one variable
+def reaching_defs(fi, var):
+    """id(stmt) -> frozenset of definition sites (line numbers; 0 = parameter/unbound) of `var` reaching stmt"""
+    out = {}
+
+    def defines(s):
+        if isinstance(s, ast.Assign):
+            for t in s.targets:
+                for n in ast.walk(t):
+                    if isinstance(n, ast.Name) and n.id == var and isinstance(n.ctx, ast.Store):
+                        return True
+        if isinstance(s, (ast.AugAssign, ast.AnnAssign)) and isinstance(s.target, ast.Name) and s.target.id == var:
+            return True
+        return False
+
+    def block(stmts, cur):
+        for s in stmts:
+            cur = stmt(s, cur)
+        return cur
+
+    def stmt(s, cur):
+        out[id(s)] = cur
+        if isinstance(s, ast.If):
+            a = block(s.body, cur)
+            b = block(s.orelse, cur)
+            return a | b
+        if isinstance(s, (ast.For, ast.While)):
+            c = cur
+            if isinstance(s, ast.For) and any(isinstance(n, ast.Name) and n.id == var for n in ast.walk(s.target)):
+                c = frozenset([s.lineno])
+            for _ in range(2):
+                c = c | block(s.body, c)
+            return c | block(s.orelse, c) if s.orelse else c | cur
+        if isinstance(s, ast.With):
+            return block(s.body, cur)
+        if isinstance(s, ast.Try):
+            a = block(s.body, cur)
+            r = a
+            for h in s.handlers:
+                r = r | block(h.body, cur | a)
+            r = block(s.orelse, r) if s.orelse else r
+            return block(s.finalbody, r) if s.finalbody else r
+        if isinstance(s, (ast.Return, ast.Raise)):
+            return frozenset()
+        if defines(s):
+            if isinstance(s, ast.AugAssign):
+                return frozenset([s.lineno])
+            return frozenset([s.lineno])
+        return cur
+
+    block(fi.node.body, frozenset([0]))
+    return out
